@@ -84,6 +84,8 @@ enum End {
     /// reading.  Either path is a valid experiment; the pause only makes it
     /// likely that the server closes first (no client socket left in TIME_WAIT).
     WaitThenFin,
+    /// like `WaitThenFin` with a pause of so many milliseconds
+    WaitFor(u64),
     /// send, then give the connection up without reading
     Abrupt(How),
 }
@@ -196,14 +198,19 @@ fn run_conn(rt: &tokio::runtime::Runtime, addr: SocketAddr, case: &Case) -> Opti
             drop(k);
             Some(Vec::new())
         }
-        End::ReadToEof | End::Wait | End::WaitThenFin => {
+        End::ReadToEof | End::Wait | End::WaitThenFin | End::WaitFor(_) => {
+            let pause = match case.end {
+                End::WaitFor(ms) => Some(ms),
+                End::WaitThenFin => Some(150),
+                _ => None,
+            };
             let mut fin_sent = false;
             if case.end == End::ReadToEof {
                 let _ = s.shutdown(std::net::Shutdown::Write);
                 fin_sent = true;
             }
-            if case.end == End::WaitThenFin {
-                let _ = s.set_read_timeout(Some(Duration::from_millis(150)));
+            if let Some(ms) = pause {
+                let _ = s.set_read_timeout(Some(Duration::from_millis(ms)));
             }
             let mut recv = Vec::new();
             let mut buf = [0u8; 16384];
@@ -213,7 +220,7 @@ fn run_conn(rt: &tokio::runtime::Runtime, addr: SocketAddr, case: &Case) -> Opti
                     Ok(n) => recv.extend_from_slice(&buf[..n]),
                     Err(e) if e.kind() == std::io::ErrorKind::Interrupted => continue,
                     Err(e)
-                        if case.end == End::WaitThenFin
+                        if pause.is_some()
                             && !fin_sent
                             && matches!(e.kind(), std::io::ErrorKind::WouldBlock | std::io::ErrorKind::TimedOut) =>
                     {
@@ -232,8 +239,72 @@ fn run_conn(rt: &tokio::runtime::Runtime, addr: SocketAddr, case: &Case) -> Opti
     }
 }
 
+// ---- HTTP/2 (prior knowledge): the client preface and what may follow it
+
+const H2_PREFACE: &[u8] = b"PRI * HTTP/2.0\r\n\r\nSM\r\n\r\n";
+
+fn h2_frame(len: usize, ty: u8, flags: u8, stream: u32, payload: &[u8]) -> Vec<u8> {
+    let mut v = vec![(len >> 16) as u8, (len >> 8) as u8, len as u8, ty, flags];
+    v.extend_from_slice(&stream.to_be_bytes());
+    v.extend_from_slice(payload);
+    v
+}
+
+/// The frames in `recv` as `type.firstPayloadByte` (256 = empty payload); `None` if `recv`
+/// is not a sequence of complete frames starting with SETTINGS.
+fn h2_verdict(recv: &[u8]) -> String {
+    let mut i = 0usize;
+    let mut tys: Vec<String> = Vec::new();
+    let mut ok = true;
+    while i < recv.len() {
+        if recv.len() - i < 9 {
+            ok = false;
+            break;
+        }
+        let len = ((recv[i] as usize) << 16) | ((recv[i + 1] as usize) << 8) | recv[i + 2] as usize;
+        if recv[i + 5] >= 128 || recv.len() - i - 9 < len {
+            ok = false;
+            break;
+        }
+        tys.push(format!("{}.{}", recv[i + 3], if len > 0 { recv[i + 9] as u32 } else { 256 }));
+        i += 9 + len;
+    }
+    if ok && !tys.is_empty() && !tys[0].starts_with("4.") {
+        ok = false;
+    }
+    format!("{}:{}:{}", tys.len(), ok as u8, if tys.is_empty() || !ok { "-".to_string() } else { tys.join(",") })
+}
+
+fn h2_cases() -> Vec<Case> {
+    let with = |kind: &str, fault: Option<&'static str>, rest: Vec<u8>, end: End| {
+        let mut b = H2_PREFACE.to_vec();
+        b.extend_from_slice(&rest);
+        Case { kind: format!("h2-{}", kind), fault, sent: Sent::raw(&b), end }
+    };
+    let settings = h2_frame(0, 4, 0, 0, &[]);
+    let cat = |parts: &[&[u8]]| -> Vec<u8> { parts.iter().flat_map(|p| p.iter().cloned()).collect() };
+    let mut get = vec![0x82u8, 0x86, 0x04, 0x07];
+    get.extend_from_slice(b"/health");
+    get.extend_from_slice(&[0x01, 0x09]);
+    get.extend_from_slice(b"localhost");
+    vec![
+        with("preface-only", Some("trunc"), vec![], End::WaitThenFin),
+        with("garbage", Some("garbage"), (0..60u32).map(|i| (i * 37 + 11) as u8).collect(), End::WaitThenFin),
+        with("bad-settings-length", Some("badhdr"), h2_frame(5, 4, 0, 0, &[0, 1, 0, 0, 16]), End::WaitThenFin),
+        with("settings-on-stream", Some("badhdr"), h2_frame(0, 4, 0, 3, &[]), End::WaitThenFin),
+        with("huge-frame", Some("oversize"), cat(&[&settings, &h2_frame(0xff_ffff, 0, 0, 1, &[1, 2, 3, 4, 5, 6, 7, 8, 9, 10])]), End::WaitThenFin),
+        with("bad-hpack", Some("badhdr"), cat(&[&settings, &h2_frame(5, 1, 0x05, 1, &[0xff, 0xff, 0xff, 0xff, 0xff])]), End::WaitThenFin),
+        with("zero-window-update", Some("badhdr"), cat(&[&settings, &h2_frame(4, 8, 0, 0, &[0, 0, 0, 0])]), End::WaitThenFin),
+        with("ping-wrong-length", Some("badhdr"), cat(&[&settings, &h2_frame(3, 6, 0, 0, &[1, 2, 3])]), End::WaitThenFin),
+        with("data-on-idle-stream", Some("badhdr"), cat(&[&settings, &h2_frame(4, 0, 1, 5, b"data")]), End::WaitThenFin),
+        with("truncated-headers", Some("trunc"), cat(&[&settings, &h2_frame(get.len(), 1, 0x05, 1, &get[..6])]), End::WaitThenFin),
+        with("valid-get", None, cat(&[&settings, &h2_frame(get.len(), 1, 0x05, 1, &get)]), End::WaitFor(1500)),
+    ]
+}
+
 fn fc_line(rt: &tokio::runtime::Runtime, id: &str, mode: HandlerTaskMode, case: &Case, recv: &[u8]) -> String {
-    format!("fc {} {} {} {} => {} rr={}", id, mode_name(mode), case.kind, case.sent.enc(), hex(recv), reader_verdict(rt, recv))
+    let rr = if case.kind.trim_start_matches("tls-").starts_with("h2-") { h2_verdict(recv) } else { reader_verdict(rt, recv) };
+    format!("fc {} {} {} {} => {} rr={}", id, mode_name(mode), case.kind, case.sent.enc(), hex(recv), rr)
 }
 
 fn random_case(rng: &mut Rng) -> Case {
@@ -405,6 +476,7 @@ fn corpus(thorough: bool) -> Vec<Case> {
             }
         }
     }
+    cs.extend(h2_cases());
     if thorough {
         // every stage of every request for the abrupt family as well
         for how in [How::Rst, How::Close] {
@@ -678,7 +750,7 @@ fn run_tls_sequence(
                                     drop(disconnect(&rt, s.sock, how));
                                     Vec::new()
                                 }
-                                End::ReadToEof | End::WaitThenFin => {
+                                End::ReadToEof | End::WaitThenFin | End::WaitFor(_) => {
                                     s.conn.send_close_notify();
                                     let _ = s.flush();
                                     let _ = s.sock.shutdown(std::net::Shutdown::Write);
